@@ -320,7 +320,8 @@ _RULE_EXTRA = {
     "C05": "; 1 in 4 keyed tuples with column-changing branches (add / remove / move columns per branch, shared new names), judged by column name; 1 in 4 with an all-empty key",
     "C06": "; block indices built by IndexBlock (0..5 or 255 rows, keyed or keyless): written, read, re-written, stored, fetched, compared with the Lean codec; table profiles of real ingests decoded and re-encoded (no Lean model of the profile: re-encoding clauses only)",
     "C07": "; 1 in 5 extra tables header-only",
-    "C11": "; walks from 3..5 start points with a repeated one",
+    "C11": "; walks from 3..5 start points with a repeated one; 2 per DAG: CommitsQueue.RemoveAncestors(1..2 commits) on a frontier started from 1..3 commits and advanced by 0..2 pops, judged by reachability (exactly the ancestors leave, the rest keep their order)",
+    "C12": "; 1 in 20: a repository directory (badger + SQLite files) with 1..3 transactions (in progress or committed, begun well before or after the time-to-live: default, 24h or 2h) staging 1..2 refs each, `wrgl gc` or `wrgl prune` through the command line, judged with the refs that exist afterwards as roots; 1 in 20: the SQLite ref store fails with a disk I/O error after 0..5 rows of a scan during prune (nothing reachable may go, success must mean complete), then a healthy re-run; 1 in 40: 30..60 commits over 25..40 tables on a real badger store",
     "C13": "; every write position also as a single injected write error (the operation continues): consistency, error reported or harmless, re-run",
     "C14": "; 1 in 5 scenarios inject the fault into discard (crash or single error at each of its store operations) and discard again; commit faults as crash or single error",
     "C15": "; 1 in 8 logged sets run with a failing reflog insert (SQL trigger): must fail and change nothing",
